@@ -40,7 +40,7 @@ def run(chk, tier):
     stop = {p_ for p_ in prog.fns if '::tests::' in p_ or 'trippy_core::net::platform::' in p_}
     scope = {p_ for p_ in cg.reachable(roots, stop=stop) if prog.fns[p_]['crate'] in ('packet', 'core')}
     scope = {p_ for p_ in scope if not (prog.fns[p_]['span']['exp'] and re.match(r'core::ops::(arith|bit)::', prog.fns[p_].get('trait_item') or ''))}
-    chk.rule('R1', 'every panic-capable site reachable from the extension entry points is discharged', floor=25)
+    chk.rule('R1', 'every panic-capable site reachable from the extension entry points is discharged', floor=18)
     chk.rule('R1t', 'loops in scope terminate', floor=0)
     chk.extra['roots'] = len(roots)
     if len(roots) < 20:
